@@ -358,7 +358,7 @@ var opKinds = []opKind{
 	{"connect", 3}, {"join", 2}, {"subscribe", 14}, {"unsubscribe", 5}, {"subscribe_no_ev", 2},
 	{"local_set_change", 12}, {"local_set_same", 4}, {"remote_write_change", 12}, {"remote_write_same", 4},
 	{"local_set_clamped", 3}, {"remote_write_clamped", 3}, {"hardware_change", 3}, {"read_refreshing", 4},
-	{"remote_write_readonly", 2}, {"combined_put", 7}, {"read", 3}, {"close_fin", 3}, {"close_rst", 3},
+	{"remote_write_readonly", 2}, {"subscribe_with_value_readonly", 3}, {"combined_put", 7}, {"read", 3}, {"close_fin", 3}, {"close_rst", 3},
 }
 
 func (h *history) step(maxConns int) {
@@ -638,6 +638,49 @@ func (h *history) step(maxConns int) {
 		} else {
 			h.fenceAll(kind, c, nil, []int{xi})
 		}
+	case "subscribe_with_value_readonly":
+		// one entry carrying a value and ev for a characteristic that permits events but no remote write: whatever
+		// happens to the value (C11's business), an entry that is answered with success has (un)subscribed the
+		// connection; an accessory may also refuse the whole entry with a status, and then the subscription is
+		// set again with a plain ev entry so that the model knows it
+		c := anyConn()
+		xi := h.pickChar(func(i int, x *chr) bool { return !x.Wr && x.Ev }, h.rnd.Intn(2) == 0)
+		if xi < 0 {
+			h.step(maxConns)
+			return
+		}
+		x := h.f.chars[xi]
+		on := h.rnd.Intn(4) != 0
+		v := newValue(x, h.rnd, "rs")
+		h.logf("subscribe_with_value_readonly: c%d PUT %s value %s ev:%v%s in one entry (characteristic is not writable; current %s)", c.Slot, x.Key, showVal(v), on, note(c.subs[xi], on), showVal(x.cur))
+		st, code, ok := h.put(c, []refctl.CharValue{{AID: x.AID, IID: x.IID, Value: refctl.RawJSON(v), Ev: bptr(on)}})
+		if !ok {
+			return
+		}
+		if s, has := st[[2]uint64{x.AID, x.IID}]; code == 204 || (has && s == 0) {
+			h.applySub(c, xi, on, st, code)
+			h.r.Count("subscriptions_changed_by_an_entry_that_also_carried_a_value_for_a_readonly_characteristic", 1)
+		} else {
+			h.logf("  (entry refused with status %d: c%d PUT %s ev:%v alone)", s, c.Slot, x.Key, on)
+			st2, code2, ok := h.put(c, []refctl.CharValue{{AID: x.AID, IID: x.IID, Ev: bptr(on)}})
+			if !ok {
+				return
+			}
+			h.applySub(c, xi, on, st2, code2)
+		}
+		if now := decoded(x.hcObj.Value); !sameJSON(now, x.cur) {
+			h.r.Count("readonly_write_was_applied", 1)
+			x.cur = now
+			h.fenceAll(kind, c, []change{{xi, now}}, nil)
+		} else {
+			h.fenceAll(kind, c, nil, []int{xi})
+		}
+		// the subscription only shows when the value changes afterwards
+		nv := newValue(x, h.rnd, fmt.Sprintf("RS%d.%d", h.n, len(h.log)))
+		h.logf("  then the application sets %s from %s to %s", x.Key, showVal(x.cur), showVal(nv))
+		x.set(nv)
+		x.cur = nv
+		h.fenceAll("local_set_change", nil, []change{{xi, nv}}, nil)
 	case "combined_put":
 		c := anyConn()
 		n := 2 + h.rnd.Intn(3)
